@@ -814,3 +814,86 @@ def ser_property(prop, tier, seed):
 
 
 TOSKEY = "mpilot/program.py::Program.to_string"
+
+
+# =========================================================================== C17 / C18: file I/O commands
+def io_property(prop, tier, seed):
+    from . import iocases, excprops, ioprops
+    from .engine import Engine
+
+    root = REPO
+    repo = Repo(root)
+    rep = Report(prop, tier, seed, "other", "./check %s --tier %s" % (prop, tier))
+    which = "csv" if prop == "C17" else "netcdf"
+    rep.trusted = ["the csv module, open()/file objects, float()/repr() being inverse on finite doubles, the netCDF4 / HDF5 C libraries and numpy: assumed, exercised only by the bounded stand-in"]
+    # proved part: the exception classes of this library and the helper the writers call, plus the array logic of the commands (ioprops)
+    wanted = {"C17": ("EmptyDataFile", "InvalidDataFile", "EmptyInputs", "MixedArrayShapes"), "C18": ("NoSuchVariable", "InvalidPositiveData", "InvalidFuzzyData", "EmptyInputs", "MixedArrayShapes")}[prop]
+    for ci in excprops.exception_classes(repo):
+        if ci.name not in wanted:
+            continue
+        eng = Engine(repo, {}, {})
+        try:
+            for r in excprops.verify_exception_class(eng, ci):
+                rep.add_vc(r["name"], r["status"], r.get("function"), r.get("clause") or r.get("kind"), r.get("backend"), r.get("time_s", 0), detail={"reason": r.get("reason")})
+                if r["status"] == "sat":
+                    rep.violations.append({"obligation": r["name"], "how": "counter-model", "confirmed": False, "detail": {"goal": r.get("goal")}})
+                elif r["status"] != "unsat":
+                    rep.undecided.append({"obligation": r["name"], "reason": r.get("reason")})
+        except Exception as e:
+            rep.errors.append("exception class %s: %s" % (ci.name, e))
+    try:
+        precs, fns = ioprops.verify(repo, which)
+        rep.functions += fns
+        for r in precs:
+            r = {k: v for k, v in r.items() if k not in ("model_obj", "state")}
+            rep.add_vc(r["name"], r["status"], r.get("function"), r.get("clause") or r.get("kind"), r.get("backend"), r.get("time_s", 0),
+                       detail={"goal": r.get("goal"), "reason": r.get("reason"), "trail": r.get("trail")})
+            if r["status"] == "sat":
+                rep.violations.append({"obligation": r["name"], "function": r.get("function"), "how": "counter-model", "confirmed": False, "detail": {"goal": r.get("goal"), "trail": r.get("trail")}})
+            elif r["status"] != "unsat":
+                rep.undecided.append({"obligation": r["name"], "reason": r.get("reason") or "unknown"})
+    except Exception as e:
+        import traceback
+
+        rep.errors.append("ioprops: %s: %s %s" % (type(e).__name__, e, traceback.format_exc()[-800:]))
+    helper = cmdprops.verify_commands(["helper:validate_array_shapes"], root)[0]
+    if helper["function"]:
+        rep.functions.append(helper["function"])
+    for r in helper["records"]:
+        rep.add_vc(r["name"], r["status"], r.get("function"), "helper", r.get("backend"), r.get("time_s", 0))
+        if r["status"] != "unsat":
+            rep.undecided.append({"obligation": r["name"], "reason": r.get("reason") or r["status"]})
+    t0 = time.time()
+    cases = iocases.csv_cases(tier, seed) if which == "csv" else iocases.nc_cases(tier, seed)
+    outs = iocases.run_real(cases, root)
+    judge = iocases.judge_csv if which == "csv" else iocases.judge_nc
+    distinct, fails = set(), 0
+    for c, o in zip(cases, outs):
+        distinct.add(json.dumps(c, sort_keys=True))
+        bad = judge(c, o)
+        if any(b[0] == "harness-error" for b in bad):
+            rep.errors.append("%s battery: %s" % (which, bad[0][1]))
+            continue
+        if bad:
+            fails += 1
+            rep.violations.append({"obligation": "mpilot/libraries/eems/%s/io.py/bounded:%s" % (which, c["kind"]), "function": "mpilot/libraries/eems/%s/io.py" % which,
+                                   "how": "bounded-concrete", "case": c, "real": o, "violated": [b[0] for b in bad], "violated_detail": bad[:4], "confirmed": True})
+    if which == "csv":
+        rule = ("tables over a 20-value double lattice (subnormal, extremes, -0.0, 1e22/1e23, 0.1+0.2) and integers, 0-4 rows, blank lines, CRLF, header names needing CSV "
+                "quoting, every MissingVal / DataType choice; faults with a known file line; write->read round trips of 1-3 columns compared bit for bit")
+    else:
+        rule = ("grids of rank 1-3 (incl. length-1 axes), float and int results, none/one/random/no-mask placements, 1-3 results written together, read back with every "
+                "combination of DataType (absent + 5 values) and MissingValue; template dimension variables, values and attributes compared; reader parameter matrix on fixed files")
+    rep.bounded = {"label": "bounded stand-in for the file formats and libraries (never counted as proved)", "evaluations": len(cases), "distinct_nontrivial": len(distinct),
+                   "failures": fails, "wall_s": round(time.time() - t0, 1), "rule": rule}
+    rep.samples = [{"case": {k: v for k, v in cases[0].items() if k != "text"}}]
+    rep.explanation = ioprops.EXPLANATION[which]
+
+    def rerun(w):
+        if not w or w.get("kind") != "io-case":
+            return None
+        o = iocases.run_real([w["case"]], root)[0]
+        return [b[0] for b in judge(w["case"], o)]
+
+    rep.rerun_witness = rerun
+    return rep
